@@ -33,6 +33,7 @@ func main() {
 	flag.StringVar(&o.Replay, "replay", "", "replay file")
 	flag.IntVar(&o.Budget, "budget", 0, "budget multiplier override")
 	flag.Parse()
+	verifRoot = o.Verif
 	fn, ok := runners[o.Prop]
 	if !ok {
 		fmt.Fprintf(os.Stderr, "unknown property %q\n", o.Prop)
